@@ -523,6 +523,10 @@ func checkC17(c *c17Case) (ds []hx.Discrepancy, info map[string]bool) {
 	if len(ds) == 0 && c.Draft {
 		ds = append(ds, leafIdentity(root, sdl)...)
 	}
+	if len(ds) == 0 && c.Draft {
+		info["input-type-bound-to-a-go-struct(probe)"] = true
+		ds = append(ds, goBoundInputProbe()...)
+	}
 	if len(ds) == 0 && len(c.Loads) > 1 {
 		// what the root says about the schema does not depend on whether it was asked while the
 		// schema was still arriving: a second root is given the same loads and asked only at the end
@@ -1058,4 +1062,39 @@ func TestC17(t *testing.T) {
 			one(rt.Fatalf, &c17Case{Schema: s, RootKind: rk, InclDep: inc, Then: then, Loads: loads, FailedLoad: failed, API: api, Exercise: exercise, APISteps: steps, Draft: draft, Midway: midway})
 		}
 	})
+}
+
+type zqProbeIn struct {
+	A int
+	B int
+}
+
+// goBoundInputProbe: an application may bind an input type to a Go struct (RegisterType). What the
+// root says about directive arguments of that type - their default values - stays the schema's text,
+// whatever form the values are kept in once they have been coerced.
+func goBoundInputProbe() (ds []hx.Discrepancy) {
+	root := ggql.NewRoot(newRootObj())
+	sdl := "input ZqIn { a: Int b: Int = 2 }\ndirective @zqd(p: ZqIn = {a: 1}, l: [ZqIn] = [{a: 3}]) on FIELD | OBJECT\ntype Query @zqd(p: {a: 5}) { f: Int }\n"
+	if err := root.ParseString(sdl); err != nil {
+		return []hx.Discrepancy{{Kind: "setup", Detail: "probe schema refused: " + err.Error()}}
+	}
+	if err := root.RegisterType(&zqProbeIn{}, "ZqIn"); err != nil {
+		return []hx.Discrepancy{{Kind: "setup", Detail: "probe RegisterType refused: " + err.Error()}}
+	}
+	ask := func() string {
+		defer func() { _ = recover() }()
+		return hx.Show(hx.Norm(root.ResolveString(`{__schema{directives{name args{name defaultValue}}}}`, "", nil)))
+	}
+	before := ask()
+	if err := root.ParseString("type ZqLater { a: Int }\n"); err != nil {
+		return []hx.Discrepancy{{Kind: "setup", Detail: "probe second load refused: " + err.Error()}}
+	}
+	after := ask()
+	if after != before || strings.Contains(after, "&{") {
+		ds = append(ds, hx.Discrepancy{Kind: "default-value-of-go-bound-input", Detail: fmt.Sprintf("with the input type ZqIn bound to a Go struct, the default values of @zqd's arguments are described differently after a further (unrelated) load:\n  before: %s\n  after:  %s\nschema:\n%s", before, after, sdl)})
+	}
+	if p := root.SDL(false); strings.Contains(p, "&{") {
+		ds = append(ds, hx.Discrepancy{Kind: "default-value-of-go-bound-input", Detail: "the printed schema shows a Go value:\n" + p})
+	}
+	return
 }
